@@ -211,6 +211,41 @@ GROUPS = {
              "  case some.inr e => obtain ⟨c, n, rfl⟩ := he e ho; by_cases hs : isSub c cException = true <;> metrics_eval <;> simp_all"),
         ],
     },
+    "view": {
+        "import": "Haiway.Bridge.MetricsView", "open": "Haiway.MiniPy Haiway.Bridge.Metrics",
+        "defs": {
+            name: Target("src/haiway/context/metrics.py", "ScopeMetrics", "metrics", ["merge"], {"_metrics": 0}, {},
+                         containers={"self._metrics", "metrics"},
+                         ext_functions={"type": (140, ["@0"]), "not_missing": (142, ["@0"])}, callables={"merge": 141},
+                         globals_={"MISSING": "(Val.obj 999)"},
+                         expr_externals={"chain.from_iterable((nested.metrics(merge=merge) for nested in self._nested))": (143, [])},
+                         part="for." + part)
+            for name, part in (("gViewPre", "pre"), ("gViewBody", "body"), ("gViewPost", "post"), ("gView", "whole"))
+        },
+        "obligations": [
+            ("view_pre", ["gViewPre"], "PreOK gViewPre {gViewPre.metrics}",
+             "intro own mergeFn st h0 hf\n  unfold gViewPre\n"
+             "  by_cases ht : mergeFn.truthy = true\n"
+             "  · simp only [ht, ↓reduceIte]\n"
+             "    refine ⟨?_, ⟨?_, ?_, ?_⟩, ?_⟩ <;> view_eval'\n"
+             "  · have hfal : mergeFn.truthy = false := by simpa using ht\n"
+             "    simp only [hfal, Bool.false_eq_true, ↓reduceIte]\n"
+             "    view_eval'"),
+            ("view_step", ["gViewBody"], "StepOK gViewBody {gViewBody.$loopvar} {gViewBody.metrics}",
+             "intro own acc mergeFn x st hl hx\n  obtain ⟨h0, hacc, hself⟩ := hl\n  unfold gViewBody\n"
+             "  rcases ho : st.world.mergeBy mergeFn ((getV acc (st.world.tyOf x)).getD missingV) x with v | e\n"
+             "  · by_cases hv : v.same missingV = true\n"
+             "    · simp only [viewStep, ho, hv]; view_step_eval\n"
+             "    · have hv' : v.same missingV = false := by simpa using hv\n"
+             "      simp only [viewStep, ho, hv']; view_step_eval\n"
+             "  · simp only [viewStep, ho]; view_step_eval"),
+            ("view_post", ["gViewPost"], "PostOK gViewPost {gViewPost.metrics}",
+             "intro acc st hacc\n  unfold gViewPost\n  view_eval"),
+            ("view_refines", ["gViewPre", "gViewBody", "gViewPost", "gView"], "ViewRefines gView",
+             "exact view_of_parts (pre := gViewPre) (body := gViewBody) (post := gViewPost) rfl view_pre\n"
+             "    (by intro st; view_eval) view_step view_post (by decide) (by decide)"),
+        ],
+    },
     "spawn": {
         "import": "Haiway.Bridge.Spawn", "open": "Haiway.MiniPy Haiway.Bridge.Spawn",
         "defs": {
